@@ -356,6 +356,9 @@ def cmd_check(pid, tier, seed):
             count = next((int(l.split()[1]) for l in lst.splitlines() if l.split() and l.split()[0] == sub), 0)
             if count == 0:
                 health_errors.append("%s: enumeration size unknown" % sub)
+        scale = float(os.environ.get("VERIF_SCALE", "1") or "1")   # sanity runs of a tier at a fraction of its budget (never registered)
+        if scale != 1.0 and count:
+            count = max(1, int(count * scale))
         share = (count + workers - 1) // workers
         seg_timeout = budget.get("timeout", 1500 if tier == "quick" else 6 * 3600)
         extra = budget.get("extra", [])
